@@ -27,7 +27,7 @@ def tlc_cases(v, cfg, module="MCStmt.tla", tag="CASE", need=()):
 
 def _obs_job(job):
     binary, packs, structured, macros = job
-    res, runs = st.observe_pack(binary, packs, structured, macros=macros or bl.DEFAULT_MACROS)
+    res, runs = st.observe_pack(binary, packs, structured, macros=(macros if macros is not None else bl.DEFAULT_MACROS))
     bad = {}
     for name, r in runs.items():
         if r.exit_class in ("panic", "timeout", "signal", "killed"):
@@ -83,10 +83,49 @@ def make_packs(cases, macroset=None):
     return packs
 
 
-def run_cases(binary, cases, v, props, label, sigextra=None, packs=None, relabel=None, macros=None):
-    """Render, pack (per mode), execute, compare. Registers violations tagged with a property in `props`."""
+def solo_packs(cases, n, macroset=None, seed_val=0):
+    """Each chosen case alone in a file of its own: nothing else in the file can make (or unmake) its recognition.
+    Returns a list of (list of packs, structured)."""
+    import random
+    bymode = {"structured": [], "unstructured": []}
+    for c in cases:
+        bymode[c["mode"]].append(c)
+    groups = []
+    uid = 500000
+    for mode, cs in bymode.items():
+        if not cs:
+            continue
+        rnd = random.Random(seed_val + len(cs))
+        # a stride through the enumeration order (which varies the fastest-changing features) plus a random sample
+        k = max(1, n // 2)
+        stride = max(1, len(cs) // k)
+        chosen = {i for i in range(0, len(cs), stride)} | set(rnd.sample(range(len(cs)), min(len(cs), n - min(n, k))))
+        cur = []
+        for j, i in enumerate(sorted(chosen)):
+            uid += 1
+            pk = st.Pack("solo_%s_%d.rs" % (mode[0], j), bom=(j % 7 == 3))
+            pk.add(st.render_case(cs[i], uid, macroset=macroset))
+            pk.finish()
+            cur.append(pk)
+            if len(cur) == 150:
+                groups.append((cur, mode == "structured"))
+                cur = []
+        if cur:
+            groups.append((cur, mode == "structured"))
+    return groups
+
+
+def run_cases(binary, cases, v, props, label, sigextra=None, packs=None, relabel=None, macros=None, solo=None, macroset=None):
+    """Render, pack (per mode), execute, compare. Registers violations tagged with a property in `props`.
+    Besides the packed files (many statements per file) a sample of the cases is run one statement per file."""
     packs_all = packs if packs is not None else make_packs(cases)
-    jobs = [(binary, [pk], structured, macros) for pk, structured in packs_all]
+    groups = [([pk], structured) for pk, structured in packs_all]
+    if cases is not None:
+        if solo is None:
+            solo = 400 if v.tier != "thorough" else 3000
+        if solo:
+            groups += solo_packs(cases, solo, macroset=macroset, seed_val=common.seed())
+    jobs = [(binary, pks, structured, macros) for pks, structured in groups]
     procs = max(2, min(common.NCPU - 2, 14))
     if len(jobs) > 2:
         with multiprocessing.get_context("fork").Pool(procs) as pool:
@@ -94,15 +133,22 @@ def run_cases(binary, cases, v, props, label, sigextra=None, packs=None, relabel
     else:
         results = [_obs_job(j) for j in jobs]
     nprob = 0
-    for (pk, structured), (res, bad, exits) in zip(packs_all, results):
+    flat = []
+    for (pks, structured), (res, bad, exits) in zip(groups, results):
         for name, (cls, err) in bad.items():
-            v.cov.setdefault("abnormal_terminations", []).append({"pack": pk.name, "run": name, "class": cls, "stderr": err})
+            v.cov.setdefault("abnormal_terminations", []).append({"pack": pks[0].name, "run": name, "class": cls, "stderr": err})
             if "C17" in props:
-                v.violation({"check": "NoPanicNoHang", "run": name, "family": label}, "breadlog %s in %s on pack %s: %s" % (cls, name, pk.name, err),
-                            {"family": label, "file": pk.text[:20000]})
+                v.violation({"check": "NoPanicNoHang", "run": name, "family": label}, "breadlog %s in %s on pack %s: %s" % (cls, name, pks[0].name, err),
+                            {"family": label, "file": pks[0].text[:20000]})
         v.cov["traces_validated_against_impl"] += 1
+        for pk in pks:
+            flat.append((pk, structured, res[pk.name]))
+    for (pk, structured, res_pk) in flat:
+        solo_file = pk.name.startswith("solo_")
         v.cov["cases_compared"] = v.cov.get("cases_compared", 0) + len(pk.items)
-        problems, per = st.judge_pack(pk, res[pk.name], structured)
+        if solo_file:
+            v.cov["cases_alone_in_a_file"] = v.cov.get("cases_alone_in_a_file", 0) + 1
+        problems, per = st.judge_pack(pk, res_pk, structured)
         for r in pk.items:
             v.evaluated((label, json.dumps(r.case, sort_keys=True)))
         for (r, text, o) in problems:
@@ -119,6 +165,8 @@ def run_cases(binary, cases, v, props, label, sigextra=None, packs=None, relabel
             prop = hit[0]
             nprob += 1
             sig = {"check": "StatementOutcome", "family": label, "structured": structured}
+            if solo_file:
+                sig["alone_in_file"] = True
             if r is not None:
                 s = r.case["s"]
                 sig.update({"head": s["head"], "target": s["target"] != "none", "msg": s["msg"], "layout": s["layout"],
@@ -130,8 +178,9 @@ def run_cases(binary, cases, v, props, label, sigextra=None, packs=None, relabel
                 sig.update(sigextra)
             v.violation(sig, "%s: %s%s" % (prop, text, ("  statement: %r" % r.text.strip()[:200]) if r is not None else ""),
                         {"case": r.case if r is not None else None, "statement": r.text if r is not None else None,
-                         "structured": structured, "problem": text, "pack": pk.name})
-        if pk.items:
+                         "structured": structured, "problem": text, "pack": pk.name,
+                         "file": pk.text if solo_file else None})
+        if pk.items and not solo_file:
             r0 = pk.items[len(pk.items) // 2]
             v.sample({"case": r0.case, "rendered": r0.text})
     return nprob
@@ -175,7 +224,7 @@ def c11(tier):
                 tail = st.render_case({"s": dict(base, head=head), "mode": mode, "outcome": "none", "sep": "msg"}, uid)
                 pk.finish(tail=tail)
                 packs.append((pk, mode == "structured"))
-    run_cases(binary, None, v, {"C11"}, "decoy", packs=packs)
+    run_cases(binary, cases, v, {"C11"}, "decoy", packs=packs)
     # a configured set with several modules and a custom macro: names of one module under another module are decoys
     macros = (("log", "info"), ("tracing", "warn"), ("my::logger", "error"))
     mset = {"info": "log", "warn": "tracing", "error": "my::logger"}
@@ -186,6 +235,9 @@ def c11(tier):
             s2 = dict(c["s"], head="crossmod")
             extra.append(dict(c, s=s2, outcome="none", place="nowhere", ref=-1))
     run_cases(binary, None, v, {"C11"}, "decoy-multimodule", packs=make_packs(cases2 + extra, macroset=mset), macros=macros)
+    # an empty configured set: every macro name is unconfigured, nothing may be reported or edited
+    none_cases = [dict(c, outcome="none", place="nowhere", ref=-1) for c in cases2 if c["s"]["head"] in ("bare", "qualified")]
+    run_cases(binary, None, v, {"C11"}, "decoy-emptyset", packs=make_packs(none_cases), macros=())
     # block comments with extra stars around the closing delimiter
     extra2 = []
     for c in cases2:
@@ -201,14 +253,13 @@ def c11(tier):
     return v.finish()
 
 
-SYM = {"sp": " ", "d": "\u0663", "R": "R", "x": "x", "tab": "\t", "nl": "\n", "bc": "/* c */", "lc": "// c\n"}
+SYM = {"sp": " ", "d": "\u0663", "R": "R", "x": "x", "tab": "\t", "nl": "\n", "bc": "/* c */", "lc": "// c\n", "dfw": "\uff15"}
 
 
-def c12(tier):
-    v = Verdict("C12", tier)
+def reftoken_cases(v, tier):
     toks = []
     for cfg in (("intended/RefTokenT.cfg" if tier == "thorough" else "intended/RefTokenQ.cfg"), "intended/RefTokenB.cfg",
-                "intended/RefTokenS.cfg"):
+                "intended/RefTokenS.cfg", "intended/RefTokenN.cfg"):
         toks += tlc_cases(v, cfg, module="MCRefToken.tla", tag="TOK")
     cases = []
     base = {"head": "bare", "target": "none", "kvs": [], "msg": "custom", "dir": "none", "trailing": "none",
@@ -217,6 +268,12 @@ def c12(tier):
         text = "".join(SYM.get(c, c) for c in t["w"])
         cases.append({"s": base, "mode": "unstructured", "msgtext": text, "outcome": "hasref" if t["valid"] else "missing",
                       "place": "message_start", "sep": "msg", "w": t["w"]})
+    return cases
+
+
+def c12(tier):
+    v = Verdict("C12", tier)
+    cases = reftoken_cases(v, tier)
     # ref-like text elsewhere: later in the message, in a format argument, in a key-value string
     cases += tlc_cases(v, "intended/StmtRefLike.cfg")
     binary = common.build_breadlog()
@@ -248,6 +305,7 @@ def c13(tier):
     v.cov.setdefault("expected_counterexamples", []).append({"cfg": "asfound/StmtInsertPoint.cfg", "violated": r.violated})
     binary = common.build_breadlog()
     run_cases(binary, cases, v, {"C13"}, "kv")
+    run_cases(binary, tlc_cases(v, "intended/StmtKvLayout.cfg"), v, {"C13"}, "kv-layout")
     v.cov["rule"] = ("every key-value sequence up to the bound over the shape alphabet (values, shorthand, capture modifiers, strings "
                      "with ; and , and every form of an existing `ref` key) x target x message class x directive x both modes")
     v.cov["exhaustive"] = True
@@ -436,6 +494,8 @@ def c17(tier):
     # statement families: every execution is monitored for abnormal termination
     cases = tlc_cases(v, "intended/StmtDecoy.cfg")
     run_cases(binary, cases, v, {"C17"}, "decoy")
+    run_cases(binary, reftoken_cases(v, "quick"), v, {"C17"}, "reftoken", solo=0)
+    run_cases(binary, tlc_cases(v, "intended/StmtKv.cfg"), v, {"C17"}, "kv", solo=0)
     # ID arithmetic at the u32 boundary and empty / huge inputs
     import runlevel as rl
     batch = rl.Batch()
@@ -464,8 +524,16 @@ def c15(tier):
     import scope
     v = Verdict("C15", tier)
     cases = tlc_cases(v, "intended/ScopeT.cfg" if tier == "thorough" else "intended/ScopeQ.cfg", module="MCScope.tla", tag="SCOPE")
-    # the universe as one layout, for every configuration
+    if tier == "thorough":
+        cases += tlc_cases(v, "intended/ScopeT3.cfg", module="MCScope.tla", tag="SCOPE")
+    # the universe as one layout, for every configuration: its in-scope set is the union of the single-entry layouts'
     allids = sorted({e for c in cases for e in c["layout"]})
+    single = {}
+    for c in cases:
+        key = (tuple(c["exts"]), c["sd"], tuple(c["inv"]))
+        single.setdefault(key, set())
+        if len(c["layout"]) == 1:
+            single[key] |= set(c["expected"])
     seen = set()
     extra = []
     for c in cases:
@@ -473,10 +541,7 @@ def c15(tier):
         if key in seen:
             continue
         seen.add(key)
-        exts = {"rs"} if c["exts"] == ["default"] else set(c["exts"])
-        extmap = {"src/a.rs": "rs", "src/sub/b.rs": "rs", "src/sub/deep/c.rs": "rs", "src/upper.RS": "RS", "src/long.rsx": "rsx",
-                  "src/back.rs.bak": "bak", "src/t.txt": "txt", "src/a.b.rs": "rs", "src/dir.rs/inner.rs": "rs"}
-        extra.append(dict(c, layout=allids, expected=sorted(e for e in allids if extmap.get(e) in exts)))
+        extra.append(dict(c, layout=allids, expected=sorted(single[key])))
     if tier != "thorough":
         rnd = random.Random(common.seed())
         rnd.shuffle(cases)
@@ -499,7 +564,7 @@ def c15(tier):
             v.violation({"check": "Scope", "what": text[:30], "exts": ",".join(c["exts"]), "sd": c["sd"], "inv": "/".join(c["inv"])},
                         "C15: %s  (layout %s, extensions %s, source_dir %s, invocation %s)" % (text, c["layout"], c["exts"], c["sd"], c["inv"]),
                         {"case": c, "observed": obs})
-    v.cov["rule"] = ("every layout of <= N optional entries from a 19-entry universe (nesting, look-alike extensions, a directory named "
+    v.cov["rule"] = ("every layout of <= N optional entries from a 26-entry universe (nesting, dotted and hidden directory names, look-alike extensions and siblings, a directory named "
                      "*.rs, symlinks to files and directories inside and outside) x 5 extension lists x 3 spellings of source_dir x 7 "
                      "(current directory, config path spelling) pairs, plus the whole universe at once; real directories and symlinks")
     v.cov["exhaustive"] = (tier == "thorough")
